@@ -110,6 +110,10 @@ type ssaEval struct {
 	// call models a call (library functions, methods with known meaning); handled=false lets the
 	// evaluator inline a module function or record an opaque call
 	call func(call ssa.CallInstruction, args []sv) (res sv, handled bool)
+	// lookup models a map lookup (checked before call); fr is the frame of the call that is
+	// being handed to the call hook (for hooks that evaluate function-valued arguments)
+	lookup func(x *ssa.Lookup, m, k sv) (sv, bool)
+	fr     *frame
 	// noInline: module functions that must be treated as opaque
 	noInline func(fn *ssa.Function) bool
 	// guide chooses the successor at a branch whose condition has no value (directed
@@ -127,6 +131,9 @@ type ssaEval struct {
 	steps   int
 	nalloc  int
 	intBits int
+	xb      *evalExtB // function values and closures seen (ext_b.go)
+	// orderMinMax: min/max of values that are not both constants are decided by the oracle
+	orderMinMax bool
 }
 
 type strIter struct {
@@ -179,6 +186,7 @@ func (e *ssaEval) val(fr *frame, v ssa.Value) sv {
 	case *ssa.Global:
 		return sv{k: svAddr, s: "global:" + x.String()}
 	case *ssa.Function:
+		e.noteFunc(x)
 		return symV("func:" + x.String())
 	}
 	return sv{}
@@ -538,6 +546,8 @@ func (e *ssaEval) instr(fr *frame, ins ssa.Instruction) {
 		a, i := e.val(fr, x.X), e.val(fr, x.Index)
 		if a.k == svString && i.k == svInt && i.i >= 0 && i.i < int64(len(a.s)) {
 			set(x, intV(int64(a.s[i.i])))
+		} else if r, ok := e.modelLookup(x, a, i); ok {
+			set(x, r)
 		} else if e.call != nil {
 			if r, ok := e.call(nil, []sv{symV("lookup"), a, i}); ok {
 				if !x.CommaOk && r.k == svTuple && len(r.tup) > 0 {
@@ -696,7 +706,15 @@ func (e *ssaEval) instr(fr *frame, ins ssa.Instruction) {
 	case *ssa.MakeMap, *ssa.MakeClosure, *ssa.MakeChan:
 		e.nalloc++
 		set(x.(ssa.Value), symV(fmt.Sprintf("fresh%d", e.nalloc)))
+		e.noteClosure(fr, ins, fmt.Sprintf("fresh%d", e.nalloc))
 	}
+}
+
+func (e *ssaEval) modelLookup(x *ssa.Lookup, m, k sv) (sv, bool) {
+	if e.lookup == nil {
+		return sv{}, false
+	}
+	return e.lookup(x, m, k)
 }
 
 func (e *ssaEval) binop(x *ssa.BinOp, a, b sv) sv {
@@ -901,10 +919,14 @@ func (e *ssaEval) doCall(fr *frame, x *ssa.Call) sv {
 				return term(b.Name(), args[0])
 			}
 		case "min", "max":
+			if r, ok := e.foldMinMax(b.Name(), args); ok {
+				return r
+			}
 			return term(b.Name(), args...)
 		}
 	}
 	if e.call != nil {
+		e.fr = fr
 		if r, ok := e.call(x, args); ok {
 			return r
 		}
@@ -915,9 +937,17 @@ func (e *ssaEval) doCall(fr *frame, x *ssa.Call) sv {
 	if r, ok := e.stringFunc(callName(x), args); ok {
 		return r
 	}
-	if fn := x.Call.StaticCallee(); fn != nil && len(fn.Blocks) > 0 && e.c.inModule(fn) && e.depth < 4 && (e.noInline == nil || !e.noInline(fn)) {
+	if r, ok := e.stdFunc(callName(x), args); ok {
+		return r
+	}
+	if fn, fvs := e.calleeOf(fr, x); fn != nil && len(fn.Blocks) > 0 && (e.c.inModule(fn) || pureStdHelper(fn)) && e.depth < 4 && (e.noInline == nil || !e.noInline(fn)) {
 		// closures: bind the free variables to the values of the bindings
 		sub := &frame{vals: map[ssa.Value]sv{}}
+		for i, fv := range fn.FreeVars {
+			if i < len(fvs) {
+				sub.vals[fv] = fvs[i]
+			}
+		}
 		if mc, ok := x.Call.Value.(*ssa.MakeClosure); ok {
 			for i, fv := range fn.FreeVars {
 				if i < len(mc.Bindings) {
